@@ -37,6 +37,10 @@ type descriptor struct {
 	// legal XML, and the routing rule ignores it - the default flow is taken
 	// whenever no other condition holds
 	DefCond string `json:"defCond,omitempty"`
+	// FlowLang: per condition an explicit language attribute ("" = the
+	// definitions default, "expr", "xpath"): one token evaluates conditions
+	// written in different expression languages at the same gateway
+	FlowLang []string `json:"flowLang,omitempty"`
 }
 
 type built struct {
@@ -109,6 +113,9 @@ func build(d descriptor) *built {
 		}
 		f.Formal = true
 		f.Lang = ""
+		if ci < len(d.FlowLang) && kind != "dataobject" && kind != "unevaluable" {
+			f.Lang = d.FlowLang[ci]
+		}
 		switch kind {
 		case "var":
 			v := fmt.Sprintf("c%d", ci)
@@ -478,12 +485,27 @@ func TestC04Random(t *testing.T) {
 			// (the repository's own XPath getDataObject test is skipped as "doesn't quite work yet")
 			kinds = append(kinds, "dataobject")
 		}
+		mixed := rapid.IntRange(0, 2).Draw(rt, "mixedLanguages") == 0
 		for i := 0; i < nc; i++ {
 			d.Truth = append(d.Truth, rapid.Bool().Draw(rt, "truth"))
 			d.Kind = append(d.Kind, rapid.SampledFrom(kinds).Draw(rt, "kind"))
+			if mixed {
+				d.FlowLang = append(d.FlowLang, rapid.SampledFrom([]string{"", "expr", "xpath"}).Draw(rt, "flowLang"))
+			}
 		}
 		r := check(rt, "TestC04Random", d)
 		cls := []string{"lang=" + d.Lang, fmt.Sprintf("tokens=%d", d.Tokens)}
+		langs := map[string]bool{}
+		for i := range d.Kind {
+			l := d.Lang
+			if i < len(d.FlowLang) && d.FlowLang[i] != "" {
+				l = d.FlowLang[i]
+			}
+			langs[l] = true
+		}
+		if len(langs) >= 2 {
+			cls = append(cls, "twoLanguagesAtOneGateway")
+		}
 		for _, k := range d.Kind {
 			cls = append(cls, "kind="+k)
 		}
